@@ -297,6 +297,7 @@ def HasFloat(x):
 def TraceLine(case, dev=(), tid=None):
   return {'tid': tid or case['tid'], 'dev': list(dev),
           'versions': [{'prog': semcheck.NormProg(v['prog']),
+                        'attached': v['attached'], 'dataset': v['dataset'],
                         'grounded': v['grounded']} for v in case['versions']],
           'steps': case['events']}
 
